@@ -27,7 +27,7 @@ WF_STATE_PATHS = [
 def externals(reg):
     for g, s in (("exec_resource", "val"), ("exec_params", "val"), ("exec_cb", "val"), ("exec_timeout", "val"),
                  ("exec_is_task_timeout", "val"), ("exec_id", "val"), ("exec_redelivered", "val"),
-                 ("exec_context", "val"), ("canc_id", "val"), ("canc_timer", "val"), ("canc_cb", "val"),
+                 ("exec_context", "val"), ("exec_heap", "heap"), ("canc_id", "val"), ("canc_timer", "val"), ("canc_cb", "val"),
                  ("n_clear", "int")):
         reg.ghost(g, s)
     # the task dispatcher as seen from the engine
@@ -38,7 +38,7 @@ def externals(reg):
                  ghost={"n_exec_task": "n_exec_task + 1", "exec_resource": "resource_arn", "exec_params": "parameters",
                         "exec_cb": "callback", "exec_timeout": "timeout", "exec_is_task_timeout": "is_task_timeout",
                         "exec_id": "event_id", "exec_redelivered": "redelivered", "exec_context": "context",
-                        "cont": "True"},
+                        "exec_heap": "__heap__", "cont": "True"},
                  assumes=["TaskDispatcher.execute_task registers the callback as the continuation that owns the "
                           "event id (its own obligations: C04/C15/C19) and does not raise (A2)"])
     reg.external("self.task_dispatcher.cancel_task", ["event_id"], modifies="ALL",
@@ -174,6 +174,11 @@ def task_delegate_contract():
         ("C04:request-identity", "implies(n_exec_task == old(n_exec_task) + 1, same(exec_id, id) and "
                                  "same(exec_redelivered, redelivered) and same(exec_context, context) and "
                                  "exec_resource == old(state.get('Resource', '')))"),
+        # C15: the task token handed to a .waitForTaskToken task names THIS event (so only its own callback completes it)
+        ("C15:token-names-this-event", "implies(n_exec_task == old(n_exec_task) + 1 and isstr(old(state.get('Resource', ''))) and "
+                                       "old(state.get('Resource', '')).endswith('.waitForTaskToken'), "
+                                       "at_snapshot('exec_heap', isstr(context['Task']['Token']) and "
+                                       "context['Task']['Token'].startswith(id + '.waitForTaskToken:')))"),
         ("C03:one-outcome", "(n_exec_task == old(n_exec_task) + 1 and n_herr == old(n_herr) and n_ack == old(n_ack)) "
                             "or (n_exec_task == old(n_exec_task) and n_herr == old(n_herr) + 1) "
                             "or (n_exec_task == old(n_exec_task) and n_herr == old(n_herr) and istrue(bht_result) and acked)"),
@@ -193,7 +198,8 @@ def task_delegate_contract():
         ("C08:task-timeout-flag", "implies(n_exec_task == old(n_exec_task) + 1, isbool(exec_is_task_timeout))"),
         ("C08:timeout-nonneg", "implies(n_exec_task == old(n_exec_task) + 1, real(exec_timeout) >= 0)"),
     ], requires=E.NOTIFY_ENV_PRE + ["isnum(ASL.get('TimeoutSeconds', self.execution_ttl))",
-                                    "isnum(state.get('TimeoutSeconds', 99999999))"])
+                                    "isnum(state.get('TimeoutSeconds', 99999999))",
+                                    "isobj(self.task_dispatcher.reply_to)", "isstr(self.task_dispatcher.reply_to.name)"])
 
 
 def on_response_contract():
